@@ -72,7 +72,7 @@ pub fn run(p: &Prog, cfg: &Cfg, rep: &mut Report) {
                     cfg,
                     &p.model.id,
                     &salt,
-                    (args_strategy(&h.conc), env_strategy(), any::<bool>()).prop_map(|(a, e, f)| (a, e, json!(f))).boxed(),
+                    (args_strategy(&h.conc), super::c02::env_strategy_with_resp(), any::<bool>()).prop_map(|(a, e, f)| (a, e, json!(f))).boxed(),
                     rep,
                     |(args, case, with_funds): &(Vec<Value>, EnvCase, Value), tally| {
                         let with_funds = with_funds.as_bool().unwrap_or(false);
@@ -172,7 +172,7 @@ pub fn run(p: &Prog, cfg: &Cfg, rep: &mut Report) {
         cfg,
         &p.model.id,
         "inst_builder",
-        (args_strategy(&h.conc), inst_strategy(), env_strategy()).boxed(),
+        (args_strategy(&h.conc), inst_strategy(), super::c02::env_strategy_with_resp()).boxed(),
         rep,
         |(args, ic, case): &(Vec<Value>, InstCase, EnvCase), tally| {
             tally.class("instantiate-builder");
